@@ -597,7 +597,24 @@ def one(ctx, seed, kind):
                    dict(describe(spec), labels=labs, expect=spec['expect']), labs)
 
 
+FIXED_SPECS = [
+    # an assets-only cart (no code, no __lua__ section) included whole, by tab, and between other includes
+    {'main_code': b'x=1\n#include assets.p8\ny=2\n#include assets.p8:0\n#include lib.lua\n#include assets.p8:1\nz=3\n',
+     'targets': [{'path': 'assets.p8', 'kind': 'p8', 'code': b'', 'label': 0, 'full': True},
+                 {'path': 'lib.lua', 'kind': 'lua', 'data': b'l=1\n'}]},
+    {'main_code': b'#include sub/dir/assets.p8\n',
+     'targets': [{'path': 'sub/dir/assets.p8', 'kind': 'p8', 'code': b'', 'label': 2, 'full': False}]},
+]
+
+
 def part_splice(ctx):
+    if ctx.shard == 0:
+        for k, spec in enumerate(FIXED_SPECS):
+            for place in PLACES[1:]:
+                sp = dict(spec, dirs=[], expect='splice', place=place, main_full=True)
+                check_spec(sp, {'spec': {kk: vv for kk, vv in spec.items()}, 'kind': 'fixed'})
+                labs, nontrivial = labels_for(sp)
+                ctx.stats.case(b'fixed%d' % k + place.encode(), True, None, labs + ['fixed_spec'])
     ctx.hyp('splice', st.binary(min_size=SEED_LEN, max_size=SEED_LEN), lambda s: one(ctx, s, 'splice'),
             max_examples=100 if ctx.quick else 500)
 
